@@ -5,7 +5,20 @@ STREAMS = {
     'ring': dict(pkg='./cmd/ring'),
     'processor': dict(pkg='./cmd/processor'),
     'throttle': dict(pkg='./cmd/throttle'),
+    'detector': dict(pkg='./cmd/detector', overlay={'motion/zz_verif_motion.go': 'motion/zz_verif_motion.go'}),
     'loglimiter': dict(pkg='./cmd/loglimiter', overlay={'loglimiter/zz_verif_loglimiter.go': 'loglimiter/zz_verif_loglimiter.go'}),
+}
+
+PROC_RULE = 'event sequences from a run-length motion model centred on trigger-frames, min/max frames and ring capacity, with bad frames, resets, test requests, refused starts (window / disk check / file creation) and, in one fifth of the cases, faults on every sink call class (thorough: plus every event string of length 6 over {motion, quiet, refused motion, bad, reset} for 40 small configurations and single/double fault placement over a busy 14-event scenario); non-trivial = at least one recording started; distinct by op text'
+PROC_TRUSTED = ['real MotionProcessor with the real motionDetector inside, driven through NewMotionProcessor with an injected parser, window clock, listener and three scripted sinks (API level, no overlay)', "the detector's verdict is taken from the MotionDetected callback (input of the processor model); frame identity = accepted-frame counter stored in two pixels"]
+PROC_ASSUME = {
+    'C01': ['ring capacity preview*fps+trigger-frames >= 1', 'motion-sink writes succeed (write failures belong to C12)'],
+    'C02': ['ring capacity >= 1', 'motion-sink writes succeed'],
+    'C03': ['ring capacity >= 1', 'min-secs <= max-secs (enforced by recorder config validation)', 'motion-sink writes succeed'],
+    'C04': ['window boundary arithmetic is covered by the window stream / Props.C04 window theorems'],
+    'C12': ['ring capacity >= 1'],
+    'C13': ['ring capacity >= 1', 'fewer than 4e9 events (frame ids stay below the sentinel used for rejected content)'],
+    'C17': ['no faults on the continuous/test sink and non-overlapping requests (outside that the monitor claims nothing; C12 covers faults)'],
 }
 
 PROPS = {
@@ -37,6 +50,56 @@ PROPS = {
                  'upstream obeys the recorder protocol (enforced identically by harness and model)'],
         assumptions=['non-decreasing clock', 'bucket-size*fps >= 1 and (min+preview)*fps >= 1 (the library panics on capacity 0; rate 0 is undefined)'],
     ),
+    'C01': dict(
+        lean=['Props.C01'],
+        streams=['processor'],
+        project={'processor': r'^< (md|m\.|re|rs|ret|panic)'}, rule=PROC_RULE, trusted=PROC_TRUSTED,
+        assumptions=PROC_ASSUME['C01'],
+    ),
+    'C02': dict(
+        lean=['Props.C02'],
+        streams=['processor'],
+        project={'processor': r'^< (md|m\.|re|rs|ret|panic)'}, rule=PROC_RULE, trusted=PROC_TRUSTED,
+        assumptions=PROC_ASSUME['C02'],
+    ),
+    'C03': dict(
+        lean=['Props.C03'],
+        streams=['processor'],
+        project={'processor': r'^< (md|m\.|re|rs|ret|panic)'}, rule=PROC_RULE, trusted=PROC_TRUSTED,
+        assumptions=PROC_ASSUME['C03'],
+    ),
+    'C04': dict(
+        lean=['Props.C04'],
+        streams=['processor'],
+        project={'processor': r'^< (md|m\.|re|rs|ret|panic)'}, rule=PROC_RULE, trusted=PROC_TRUSTED,
+        assumptions=PROC_ASSUME['C04'],
+    ),
+    'C12': dict(
+        lean=['Props.C12'],
+        streams=['processor'],
+        rule=PROC_RULE, trusted=PROC_TRUSTED,
+        assumptions=PROC_ASSUME['C12'],
+    ),
+    'C13': dict(
+        lean=['Props.C13'],
+        streams=['processor'],
+        rule=PROC_RULE, trusted=PROC_TRUSTED,
+        assumptions=PROC_ASSUME['C13'],
+    ),
+    'C17': dict(
+        lean=['Props.C17'],
+        streams=['processor'],
+        project={'processor': r'^< (c\.|t\.|ret|panic)'}, rule=PROC_RULE, trusted=PROC_TRUSTED,
+        assumptions=PROC_ASSUME['C17'],
+    ),
+    'C06': dict(
+        lean=['Props.C06'],
+        streams=['throttle'],
+        rule='same schedules as C05 (five phase styles, base-recorder start/write/stop failures in 35% of cases, restarts in the middle of a trigger); '
+             'non-trivial = at least one throttled event; distinct by op text',
+        trusted=['upstream obeys the recorder protocol (start write* stop)* - proved for the processor in C12 - enforced identically by harness and model'],
+        assumptions=['at the excluded point "start; start" the real code forwards two starts (unreachable from the daemon)'],
+    ),
 }
 
 NOT_APPLICABLE = {}
@@ -46,6 +109,46 @@ _COMMON_NOTE = ('Trusted: Lean kernel (axioms propext, Classical.choice, Quot.so
                 'the evidence file; ')
 
 MANIFEST_TEXT = {
+    'C01': dict(
+        text='Theorem for every configuration with ring capacity >= 1, every event list (frames with any motion bits, refused starts of all three kinds, bad frames, resets, test requests) and every fault placement except failing motion-sink writes: the trace of the MotionProcessor model is accepted by the C01/C02 monitor - every recording is a consecutive ascending id run, recordings never overlap, and each starts at max(trigger+1-K, 1+last id of the previous recording) (tiling). Proved by a product invariant of model state, ring ghost state and monitor state; the ring part rests on the C19 refinement.',
+        note=_COMMON_NOTE + 'the executable monitor that states the property is part of the trusted reading of the statement (lean/TR/ProcMon.lean, lean/TR/ThrMon.lean).',
+        technique='Lean 4 proof (product invariant of model x ghost x monitor, induction over the event list) + differential correspondence',
+        design_ref='DESIGN.md 5/C01'),
+    'C02': dict(
+        text='Same invariant as C01, read for the start of a recording: the observations of a triggering event are exactly start, then the writes lo..n with lo = max(n+1-K, nextFree); arithmetic corollary: exactly K-1 pre-trigger frames unless fewer were accepted since start-up / the previous recording.',
+        note=_COMMON_NOTE + 'the executable monitor that states the property is part of the trusted reading of the statement (lean/TR/ProcMon.lean, lean/TR/ThrMon.lean).',
+        technique='Lean 4 proof (product invariant of model x ghost x monitor, induction over the event list) + differential correspondence',
+        design_ref='DESIGN.md 5/C02'),
+    'C03': dict(
+        text='Theorem for all motion patterns, refused starts, bad frames, resets, all 0 <= minF <= maxF: a recording ends exactly at the first post-trigger frame p with p >= min(maxF, L(p)-1+minF); corollaries: post-trigger length < maxF while open, sustained motion yields max-length recordings that tile.',
+        note=_COMMON_NOTE + 'the executable monitor that states the property is part of the trusted reading of the statement (lean/TR/ProcMon.lean, lean/TR/ThrMon.lean).',
+        technique='Lean 4 proof (product invariant of model x ghost x monitor, induction over the event list) + differential correspondence',
+        design_ref='DESIGN.md 5/C03'),
+    'C04': dict(
+        text='Theorem for every event list and EVERY fault placement: a successful start occurs at a frame iff no recording is active, the frame has motion, the run counter reached trigger-frames, the window is open, CheckCanRecord passes and StartRecording succeeds; the disk check is consulted only with the window open; a refusal does not reset the run counter (retry on the next motion frame).',
+        note=_COMMON_NOTE + 'the executable monitor that states the property is part of the trusted reading of the statement (lean/TR/ProcMon.lean, lean/TR/ThrMon.lean).',
+        technique='Lean 4 proof (product invariant of model x ghost x monitor, induction over the event list) + differential correspondence',
+        design_ref='DESIGN.md 5/C04'),
+    'C12': dict(
+        text='Theorem for every event list over {frame, bad frame, reset, test request} and every fault placement on every call of every sink, continuous recorder on or off: each of the three sinks sees a call sequence accepted by the protocol automaton and the GetHistory slice expression never panics; recovery theorem: from every reachable state max(trigger-frames,1) fault-free motion frames lead to a successful write on the motion sink.',
+        note=_COMMON_NOTE + 'the executable monitor that states the property is part of the trusted reading of the statement (lean/TR/ProcMon.lean, lean/TR/ThrMon.lean).',
+        technique='Lean 4 proof (product invariant of model x ghost x monitor, induction over the event list) + differential correspondence',
+        design_ref='DESIGN.md 5/C12'),
+    'C13': dict(
+        text='Theorem for every event list and fault placement: a rejected frame produces no write on any sink, ends an open motion recording (stop observed), never starts one, and the content a rejecting parser scribbled into the ring slot is never written to any sink later. Parsing (zero pixel <-> bad frame, pixel-exact decode) is covered by the parse stream and theorems.',
+        note=_COMMON_NOTE + 'the executable monitor that states the property is part of the trusted reading of the statement (lean/TR/ProcMon.lean, lean/TR/ThrMon.lean).',
+        technique='Lean 4 proof (product invariant of model x ghost x monitor, induction over the event list) + differential correspondence',
+        design_ref='DESIGN.md 5/C13'),
+    'C17': dict(
+        text='Theorem for every event list: the continuous sink receives every accepted frame exactly once, in order, in files of maxF+1 frames (restarting after a bad frame), independent of motion, window and faults on the motion sink; a pending test request yields one file with the next testLast+1 = 21 accepted frames.',
+        note=_COMMON_NOTE + 'the executable monitor that states the property is part of the trusted reading of the statement (lean/TR/ProcMon.lean, lean/TR/ThrMon.lean).',
+        technique='Lean 4 proof (product invariant of model x ghost x monitor, induction over the event list) + differential correspondence',
+        design_ref='DESIGN.md 5/C17'),
+    'C06': dict(
+        text='Theorem for every bucket, minimum length, upstream request list obeying the recorder protocol, any clock and every base-failure pattern: base calls are properly paired, a stop is forwarded iff a file is open, a throttle-cut file holds >= minLen frames, exactly one throttled event per suppressed start or cut (none per frame), and until the first throttling every request is forwarded unchanged.',
+        note=_COMMON_NOTE + 'the executable monitor that states the property is part of the trusted reading of the statement (lean/TR/ProcMon.lean, lean/TR/ThrMon.lean).',
+        technique='Lean 4 proof (product invariant of model x ghost x monitor, induction over the event list) + differential correspondence',
+        design_ref='DESIGN.md 5/C06'),
     'C19': dict(
         text='Theorems for every capacity >= 1 and every operation sequence: GetHistory/Oldest/CopyRecent of the FrameLoop model equal a '
              'three-line list specification (refinement through a ghost state, proved by induction over the operation list); the model is '
